@@ -185,6 +185,14 @@ func genC16(r *Rng, tier string) []Case {
 	}
 	rec([]byte{})
 	flush()
+	// integers with leading zeros and other odd spellings (decimal only; no octal / hex prefixes)
+	for _, n := range []string{"0", "00", "010", "-0777", "08", "019", "01517418800", "-0", "-00", "0x10", "0b1", "0o7", "+1", "1_000", "1e3", "9223372036854775807", "-9223372036854775808", "09223372036854775807"} {
+		add([]byte(n))
+		add([]byte("a;k=" + n))
+		add([]byte(n + ", " + n))
+		add([]byte("a;k=" + n + ";j=1"))
+	}
+	flush()
 	// parser: realistic headers, then mutated
 	mk := func() []byte {
 		s := []byte{}
